@@ -22,7 +22,7 @@ def frozen(**kw):
     return FrozenTrial(**base)
 
 
-print("1. createTrial_valueError_not_preserved / proxy_refines_backend_fails_witness  (create_new_trial, ValueError)")
+print("1. (create_new_trial, ValueError): lost as RpcError(UNKNOWN) before repo commit ea84654, preserved since (error_class_preserved)")
 h = fleet.make("grpc(rdb)", tmp)
 sid = h.storage.create_new_study([StudyDirection.MINIMIZE], "s")
 tid = h.storage.create_new_trial(sid)
